@@ -1118,6 +1118,10 @@ impl Broker {
                     pos = c;
                     self.stats.segments += 1;
                     simrt::schedule(at, true, "net.s2c", Box::new(NetEv::S2C { bytes: chunk }));
+                    // an empty readable wake-up between two segments (possibly in the middle of a frame)
+                    if self.cfg.spurious_permille > 0 && simrt::choose("spurious", 1000) >= 1000 - self.cfg.spurious_permille {
+                        simrt::schedule(at + gap_ns / 2, true, "net.spurious", Box::new(NetEv::Spurious));
+                    }
                     at += gap_ns;
                 }
                 self.s2c.extend_from_slice(&bytes);
@@ -1266,13 +1270,17 @@ impl Broker {
         }
         // style 1: with some probability confirm nothing now; otherwise confirm a random
         // subset: either a multiple up to some unconfirmed tag, or one single tag out of order
-        let k = simrt::choose("confirm_now", 3);
+        let k = simrt::choose("confirm_now", 4);
         if k == 0 || cs.unconfirmed.is_empty() {
             return;
         }
         let ack = simrt::choose("confirm_ack", 4) != 0;
         let idx = simrt::choose("confirm_idx", cs.unconfirmed.len() as u32) as usize;
-        let (tag, multiple) = if k == 1 {
+        let (tag, multiple) = if k == 3 {
+            // "everything outstanding": delivery tag 0 with the multiple bit
+            cs.unconfirmed.clear();
+            (0, true)
+        } else if k == 1 {
             let t = cs.unconfirmed.remove(idx);
             (t, false)
         } else {
